@@ -6,6 +6,7 @@ package interp
 
 import (
 	"bufio"
+	"os"
 	"fmt"
 	"io"
 	"os/exec"
@@ -21,6 +22,7 @@ type Solver struct {
 	out     *bufio.Reader
 	buf     strings.Builder
 	defined map[int]bool // term ids defined in the current path scope
+	declared map[string]bool // variables declared in the current path scope
 	log     io.Writer
 
 	NSat, NUnsat, NUnknown int
@@ -62,22 +64,15 @@ func NewSolver(kind string, timeoutMs int) (*Solver, error) {
 		return nil, err
 	}
 	s := &Solver{name: kind, cmd: cmd, in: in, out: bufio.NewReaderSize(out, 1<<16), defined: map[int]bool{}}
+	if f := os.Getenv("GOSYM_SMTLOG"); f != "" {
+		lf, _ := os.Create(fmt.Sprintf("%s.%d", f, cmd.Process.Pid))
+		s.log = lf
+	}
 	if kind == "cvc5" {
 		s.send("(set-logic QF_BV)\n")
 	} else {
 		s.send(fmt.Sprintf("(set-option :timeout %d)\n", timeoutMs))
 	}
-	var sb strings.Builder
-	for i := 0; i < poolBytes; i++ {
-		fmt.Fprintf(&sb, "(declare-const b%d (_ BitVec 8))\n", i)
-	}
-	for i := 0; i < poolBools; i++ {
-		fmt.Fprintf(&sb, "(declare-const q%d Bool)\n", i)
-	}
-	for i := 0; i < poolInts; i++ {
-		fmt.Fprintf(&sb, "(declare-const i%d (_ BitVec 64))\n", i)
-	}
-	s.send(sb.String())
 	if err := s.sync(); err != nil {
 		return nil, err
 	}
@@ -140,7 +135,11 @@ func (s *Solver) sync() error {
 // define makes sure t (and everything below it) has a definition in the
 // current scope and returns the text by which it can be referenced.
 func (s *Solver) define(t *Term) string {
-	if t.op == opVar || t.op == opConst {
+	if t.op == opVar {
+		s.declare(t)
+		return t.ref()
+	}
+	if t.op == opConst {
 		return t.ref()
 	}
 	if s.defined[t.id] {
@@ -155,12 +154,19 @@ func (s *Solver) define(t *Term) string {
 	for len(stack) > 0 {
 		it := stack[len(stack)-1]
 		stack = stack[:len(stack)-1]
-		if it.t.op == opVar || it.t.op == opConst || s.defined[it.t.id] {
+		if it.t.op == opVar {
+			s.declare(it.t)
+			continue
+		}
+		if it.t.op == opConst || s.defined[it.t.id] {
 			continue
 		}
 		if it.done {
 			s.defined[it.t.id] = true
-			s.send(fmt.Sprintf("(define-fun t%d () %s %s)\n", it.t.id, sortOf(it.t.w), it.t.body()))
+			// a named constant constrained by an equation, not a define-fun:
+			// z3 4.8.12 expands define-fun macros at every use, which is
+			// exponential on shared sub-terms (measured 14x slower).
+			s.send(fmt.Sprintf("(declare-const t%d %s)\n(assert (= t%d %s))\n", it.t.id, sortOf(it.t.w), it.t.id, it.t.body()))
 			continue
 		}
 		stack = append(stack, item{it.t, true})
@@ -171,10 +177,20 @@ func (s *Solver) define(t *Term) string {
 	return t.ref()
 }
 
-// BeginPath opens the scope of one path.
+func (s *Solver) declare(v *Term) {
+	if s.declared[v.name] {
+		return
+	}
+	s.declared[v.name] = true
+	s.send(fmt.Sprintf("(declare-const %s %s)\n", v.name, sortOf(v.w)))
+}
+
+// BeginPath opens the scope of one path. Everything declared or defined
+// inside it is popped at EndPath.
 func (s *Solver) BeginPath() {
 	s.send("(push)\n")
 	s.defined = map[int]bool{}
+	s.declared = map[string]bool{}
 }
 
 // EndPath closes it.
@@ -219,10 +235,19 @@ func (s *Solver) Check(extra *Term, vars []*Term) (SatResult, map[string]uint64,
 		return Unknown, nil, err
 	}
 	var model map[string]uint64
-	if res == Sat && len(vars) > 0 {
-		model, err = s.getValues(vars)
-		if err != nil {
-			return Unknown, nil, err
+	if res == Sat {
+		var dv []*Term
+		for _, v := range vars {
+			if s.declared[v.name] {
+				dv = append(dv, v)
+			}
+		}
+		model = map[string]uint64{}
+		if len(dv) > 0 {
+			model, err = s.getValues(dv)
+			if err != nil {
+				return Unknown, nil, err
+			}
 		}
 	}
 	if extra != nil {
